@@ -94,7 +94,13 @@ def retype(v):
     if isinstance(v, bool):
         return int(v)
     elif isinstance(v, int):
-        return bool(v) if v in (0, 1) else float(v)
+        if v in (0, 1):
+            return bool(v)
+
+        try:
+            return float(v) if float(v) == v else v
+        except OverflowError:
+            return v
     elif isinstance(v, float) and v == int(v) and abs(v) < 1e15:
         return int(v)
     elif isinstance(v, dict):
@@ -125,6 +131,29 @@ def gen_metadata(rng, depth=0, allow_empty=False):
             md = json.loads(json.dumps(_LAST_MD[0]))    # the same again
         elif k == 2:
             md = {'revision': 1, 'ok': True, 'ratio': 2.0, 'n': 0}
+        elif k == 5 and rng.chance(0.3):
+            # keys whose order depends on what is compared (code points,
+            # UTF-8 / UTF-16 units, case-folded or normalised text), values
+            # at the edges of what JSON numbers and strings can hold
+            md = {}
+
+            for a in rng.sample([('\ufffe', '\U00010000'), ('a', 'B'),
+                                 ('\u00e9', 'z'), ('10', '9'),
+                                 ('a', 'a\u0301'), ('\u00e9', 'e\u0301'),
+                                 ('k', 'K'), ('\u212a', 'k'), ('', ' '),
+                                 ('x' * 300, 'x' * 299 + 'y'),
+                                 ('a\x00', 'a'), ('"', '\\')], 3):
+                for key in a:
+                    md[key] = rng.choice([
+                        0, -0.0, 1e16, 1e-7, 123456789.123456789,
+                        2 ** 53 + 1, -(2 ** 63) - 1, 10 ** 400, 1.5e300,
+                        5e-324, '\u2028\u2029', '\x00', '\u0301',
+                        '\\u0061', '</script>', '\x7f\x80\x9f',
+                        [[[[[[[[1]]]]]]]], [], {}, [{}], '', ' ', None,
+                        True])
+
+            if rng.chance(0.5):
+                md = dict(reversed(list(md.items())))
         elif k == 4 and rng.chance(0.3):
             # large values of one recurring length (texts of equal size, one
             # after another)
